@@ -507,7 +507,7 @@ QUARANTINE_OF = {
 
 ASSUMPTIONS = {
     'default': [
-        'sampling by seed: a clean batch is evidence, not proof; worlds have <= 12 initial tasks, <= 3 WBS, <= 40 operations',
+        'sampling by seed: a clean batch is evidence, not proof; quick: worlds of <= 12 initial tasks, <= 3 WBS, <= 40 operations; thorough: <= 16 tasks, <= 60 operations',
         'the state is observed through public getters only (parent, children, predecessors, successors, wbs, all_parents, all_children, to_dict, WBS.roots/tasks/[id])',
         'custom attribute values are immutable scalars; threads are not simulated (the library makes no thread-safety claim)',
         'the reference model encodes the documented effect of an ACCEPTED call only; it never predicts acceptance except where the property states it',
